@@ -8,6 +8,9 @@ result is bit-identical to the C++ side:
             `SO2StateSpace::enforceBounds` after every step (bounded heading).
 * `dint`  — double integrator: state (x, y, vx, vy), control (ax, ay) with asymmetric bounds.
 * `car`   — kinematic car (wheel base 1) on SE(2), control (v, steering angle), one explicit Euler step per call.
+* `dpoint` — first-order point with a DISCRETE control space (`DiscreteControlSpace`): the control is one integer
+            (carried as `(value, 0)`), `((value % 8) + 8) % 8` selects one of eight headings with dyadic speeds — a total
+            function of the control value.
 
 Also the state-space pieces the planner model needs: `satisfiesBounds` (RealVector with the
 `numeric_limits<double>::epsilon()` slack; SO(2) `[-π, π)`), box obstacles over (x, y) (closed boxes,
@@ -19,7 +22,7 @@ namespace OmplModel.ControlSys
 open OmplModel
 
 inductive Kind where
-  | point | uni | dint | car
+  | point | uni | dint | car | dpoint
 deriving Repr, DecidableEq
 
 structure Cfg (α : Type) where
@@ -39,12 +42,14 @@ def Kind.nb : Kind → Nat
   | .uni => 2
   | .dint => 4
   | .car => 2
+  | .dpoint => 2
 
 def Kind.nreals : Kind → Nat
   | .point => 2
   | .uni => 3
   | .dint => 4
   | .car => 3
+  | .dpoint => 2
 
 @[inline] def g (a : Array α) (i : Nat) : α := a.getD i (Num.ofNat 0)
 
@@ -56,10 +61,28 @@ def wrapSO2 (x : α) : α :=
   else if (Num.pi : α) ≤ v then v - twoPi
   else v
 
+/-- the eight headings of `dpoint` (`DPX` / `DPY` in harness/control.cpp) -/
+def dpHeading (v : Int) : α × α :=
+  let z : α := Num.ofNat 0
+  let o : α := Num.ofNat 1
+  let q : α := Num.ofDec 75 2
+  match v % 8 with
+  | 0 => (o, z)
+  | 1 => (z, o)
+  | 2 => (-o, z)
+  | 3 => (z, -o)
+  | 4 => (q, q)
+  | 5 => (-q, q)
+  | 6 => (-q, -q)
+  | _ => (q, -q)
+
 /-- one propagator call with duration `dt` (negative for backward propagation) -/
 def step (k : Kind) (dt : α) (s u : Array α) : Array α :=
   match k with
   | .point => #[g s 0 + g u 0 * dt, g s 1 + g u 1 * dt]
+  | .dpoint =>
+    let h : α × α := dpHeading (Num.toInt (g u 0))
+    #[g s 0 + h.1 * dt, g s 1 + h.2 * dt]
   | .uni =>
     #[g s 0 + g u 0 * Num.cos (g s 2) * dt, g s 1 + g u 0 * Num.sin (g s 2) * dt,
       wrapSO2 (g s 2 + g u 1 * dt)]
@@ -102,7 +125,7 @@ def so2Dist (x y : α) : α :=
 /-- `si->distance`; SE(2) is the compound with weights 1.0 and 0.5: `dist = 0.0; dist += w_i * d_i` -/
 def dist (k : Kind) (a b : Array α) : α :=
   match k with
-  | .point => rvDist a b 2
+  | .point | .dpoint => rvDist a b 2
   | .dint => rvDist a b 4
   | .uni | .car => Num.ofNat 0 + Num.ofNat 1 * rvDist a b 2 + Num.ofDec 5 1 * so2Dist (g a 2) (g b 2)
 
